@@ -677,6 +677,13 @@ def noop_displacement(m, cfg, T):
         return 0.0
 
 
+def guess_growth(m, cfg, size):
+    """|x(Tstart)| times how much an offset at the start can have grown along the branch
+    (where the branch shrinks like sqrt(Tb^2 - T^2) an offset grows like |x0| / |x|)"""
+    size0 = float(np.linalg.norm(m.phases[cfg["phase"]].loc(cfg["Tstart"])))
+    return max(size, size0 * max(1.0, size0 / max(size, 1e-300)))
+
+
 MINIMISER_KEYS = ("gradient-not-zero", "interpolation-error", "interpolation-error-veff",
                   "wrong-branch")
 
@@ -702,8 +709,9 @@ def classify(m, cfg, key, extra=None):
         return "minimiser-noop-in-large-units"
     if cfg.get("guess") and m.unit >= 100 and "err" in extra and \
             key in ("gradient-not-zero", "interpolation-error") and \
-            extra["err"] <= 1.5 * abs(cfg["guess"]) * extra["size"]:
-        # (1.5: the Newton step over-estimates the distance by the anharmonicity)
+            extra["err"] <= 2.0 * abs(cfg["guess"]) * guess_growth(m, cfg, extra["size"]):
+        # (the ODE carries the ABSOLUTE error of the guess at the start along the branch;
+        # 2: the Newton step over-estimates the distance by the anharmonicity)
         # recorded: in LARGE units scipy's absolute finite-difference step is rounding noise,
         # findLocalMinimum does not move, the table inherits (at most) the error of the guess
         return "minimiser-noop-in-large-units"
